@@ -189,6 +189,7 @@ PROPS = {
             {"run": "^TestC19Dates$", "quick": 1, "thorough": 1, "rapid": False},
             {"run": "^TestC19$", "quick": 100000, "thorough": 1000000},
             {"run": "^TestC19Multi$", "quick": 20000, "thorough": 200000},
+            {"run": "^TestC19Seq$", "quick": 20000, "thorough": 200000},
         ],
     },
     "C10": {
